@@ -17,7 +17,9 @@ VALUES = {
     'arrm': '={{[v1, ["m1", "m2"]]}}', 'arr3': '={{[v1, v2, ["m1"]]}}', 'arr3s': '={{[v1, "ar", ["m1", "m2"]]}}',
     'arrm0': '={{[v1, []]}}', 'call': '={{f1(v2)}}', 'str': '="lit"', 'none': '',
 }
-OTHERS = {'': '', 'id': 'id="a"', 'cls': 'class={{v3}}', 'show': 'v-show={{v4}}', 'sp': '{{...s1}}', 'clk': 'onClick={{f1}}'}
+OTHERS = {'': '', 'id': 'id="a"', 'cls': 'class={{v3}}', 'show': 'v-show={{v4}}', 'sp': '{{...s1}}', 'clk': 'onClick={{f1}}',
+          # a second directive on the same element: the same name in another spelling / with another argument, and another name
+          'foo-camel': 'vFoo={{v4}}', 'foo-ns': 'v-foo:z={{v4}}', 'foo-mod': 'v-foo_m9={{[v4, v3]}}', 'show-camel': 'vShow={{v4}}', 'bar': 'v-bar:q_m={{v4}}', 'two': 'v-bar={{v4}} vBaz={{[v3]}}'}
 
 
 def make_skeleton(spec):
@@ -249,8 +251,8 @@ def oracle(env):
             if a.fields[0] is dattr:
                 break
             nm0 = denote.attr_name(a.fields[0])
-            if nm0.is_concrete() and nm0.py() in ('v-show', 'vShow'):
-                before += 1
+            if nm0.is_concrete() and __import__('re').match(r'^v(-|[A-Z])', nm0.py()) and not __import__('re').match(r'^v-?(html|text|model|models|slots)\b', nm0.py(), __import__('re').I):
+                before += 1          # every other directive attribute written before it has its own binding, in attribute order
     mine = v0.directives[before:before + 1]
     obs.append(Obligation('exactly one runtime directive binding per directive attribute', len(v0.directives) == twin_dirs + 1,
                           {'got': len(v0.directives), 'twin': twin_dirs}))
@@ -367,6 +369,14 @@ def jobs(tier):
                 if nm.lower().endswith('show') and v == 'str':
                     continue
                 out.append({'host': h, 'name': nm, 'value': v})
+        for o in ('foo-camel', 'foo-ns', 'foo-mod', 'bar', 'two'):
+            for pos in ('last', 'first'):
+                for nm, v in (('v-foo', 'expr'), ('v-foo:a', 'arr1'), ('vFoo_m1', 'expr')):
+                    if nm == 'vFoo_m1' and o == 'foo-camel':
+                        nm = 'v-foo_m1'
+                    out.append({'host': h, 'name': nm, 'value': v, 'other': o, 'pos': pos})
+        for pos in ('last', 'first'):
+            out.append({'host': h, 'name': 'v-show', 'value': 'expr', 'other': 'show-camel', 'pos': pos})
         for o in ('id', 'cls', 'show', 'sp', 'clk'):
             for pos in ('last', 'first'):
                 out.append({'host': h, 'name': 'v-foo_m1', 'value': 'expr', 'other': o, 'pos': pos, 'kids': 't {{v2}}'})
